@@ -9,7 +9,7 @@ sys.path.insert(0, "/verif/harness/py")
 import ber  # noqa: E402
 
 FAULTS = ["deliver", "drop", "duplicate", "delay", "reorder", "reqid", "cred", "version", "msgid", "user", "engine",
-          "truncate", "foreign", "report", "echo"]
+          "truncate", "foreign", "report", "echo", "empty"]
 
 
 class Dg:
@@ -134,6 +134,51 @@ def other_version(rng, peer, req, value):
     return Dg(data, "garbage", tag="version")
 
 
+def successive_async_sessions():
+    """one event loop: a call on session A times out (its reply is lost), A is released, session B is opened (the OS hands
+    out the lowest free descriptor: B's socket reuses A's) and its request is answered at once. Returns B's outcome."""
+    import asyncio
+    from gufo.snmp import SnmpVersion
+    peer = e2e.Peer("v2c")
+
+    async def main():
+        from gufo.snmp.async_client import SnmpSession
+        loop = asyncio.get_running_loop()
+        loop.set_exception_handler(lambda lp, ctx: None)
+
+        class Silent(asyncio.DatagramProtocol):
+            pass
+
+        class Answering(asyncio.DatagramProtocol):
+            def connection_made(self, transport):
+                self.t = transport
+
+            def datagram_received(self, data, addr):
+                req = peer.decode(data)
+                self.t.sendto(peer.response(req, [ber.varbind(tuple(req["varbinds"][0][0]), ber.INT(4711))]), addr)
+        t1, _ = await loop.create_datagram_endpoint(Silent, local_addr=("127.0.0.1", 0))
+        t2, _ = await loop.create_datagram_endpoint(Answering, local_addr=("127.0.0.1", 0))
+        try:
+            a = SnmpSession("127.0.0.1", port=t1.get_extra_info("sockname")[1], community="public", version=SnmpVersion.v2c, timeout=0.2)
+            try:
+                await a.get("1.3.6.1.2.1.1.3.0")
+            except TimeoutError:
+                pass
+            del a
+            import gc
+            gc.collect()
+            b = SnmpSession("127.0.0.1", port=t2.get_extra_info("sockname")[1], community="public", version=SnmpVersion.v2c, timeout=1.0)
+            try:
+                return ("ok", await b.get("1.3.6.1.2.1.1.3.0"))
+            except BaseException as ex:  # noqa: BLE001
+                return ("exc", type(ex).__name__, isinstance(ex, Exception))
+        finally:
+            t1.close()
+            t2.close()
+    r = e2e.run_coro(main(), 10.0)
+    return r if r is not None else ("exc", "Hang", True)
+
+
 def run(chk, model_ok=True):
     rng = random.Random(chk.seed)
     quick = chk.tier == "quick"
@@ -248,6 +293,9 @@ def run(chk, model_ok=True):
                         flds = {"request_id": rid, "report": False, "community": peer.community.encode(),
                                 "version": 0 if peer.kind == "v1" else 1}
                     new.append(Dg(data, "message", flds, ("exc", "SnmpDecodeError"), tag="echo"))
+                elif f == "empty":
+                    # a datagram of zero octets is a datagram: it is not a message of any version
+                    new.append(Dg(b"", "garbage", tag="empty"))
                 elif f == "truncate":
                     cut = rng.randrange(0, len(genuine.data))
                     new.append(Dg(genuine.data[:cut], "garbage", tag="truncate"))
@@ -358,6 +406,15 @@ def run(chk, model_ok=True):
         if rw is None or rw[:2] != ("exc", "TimeoutError"):
             fail(f"sync {cls.__name__}: the reply to the second step was lost; the walk ended as {rw!r:.60} after {len(got_w)} rows "
                  "instead of raising TimeoutError", f"# sync {cls.__name__} lost reply")
+    # histories across sessions of one event loop: the reply to B's request must reach B although A, whose socket had the
+    # same descriptor number, ended with a timeout
+    for _ in range(2 if quick else 10):
+        rb = successive_async_sessions()
+        n_cli += 1
+        if rb[:2] != ("ok", 4711):
+            fail(f"async: after a session whose call timed out was released, the next session's matching reply was not delivered: {rb!r:.80}",
+                 "# async successive sessions, descriptor reuse")
+            break
     nl, nd = sessions.model_compare(chk, all_sess, model_ok)
     chk.coverage.update({
         "evaluations": n_recv + n_cli, "client_level_cases": n_cli,
